@@ -10,6 +10,7 @@ import "verif/track"
 // cuts use the real track allocator. Misuse seen by lite is only counted (C11 owns ownership).
 type lite struct {
 	policy    track.Policy
+	move      bool             // an Append / Realloc that outgrows the capacity relocates (new handle, old one freed and poisoned), as mempool.NewAligned does
 	state     map[*[]byte]bool // true: live, false: freed
 	live      int
 	misuse    int
@@ -70,8 +71,26 @@ func (t *lite) Append(h *[]byte, more ...byte) *[]byte {
 		}
 		t.live += len(more)
 	}
+	if t.move && len(*h)+len(more) > cap(*h) {
+		return t.relocate(h, more, "")
+	}
 	*h = append(*h, more...)
 	return h
+}
+
+// relocate moves the contents to a fresh buffer, as an allocator with size classes does when an
+// append outgrows the class; the old handle is freed (and poisoned).
+func (t *lite) relocate(h *[]byte, more []byte, mores string) *[]byte {
+	old := len(*h)
+	nh := t.Malloc(old + len(more) + len(mores))
+	copy(*nh, *h)
+	copy((*nh)[old:], more)
+	copy((*nh)[old+len(more):], mores)
+	if _, ok := t.state[h]; ok {
+		t.live -= len(more) + len(mores) // Malloc counted the whole new length, Free gives back the old one
+		t.Free(h)
+	}
+	return nh
 }
 
 func (t *lite) AppendString(h *[]byte, more string) *[]byte {
@@ -82,6 +101,9 @@ func (t *lite) AppendString(h *[]byte, more string) *[]byte {
 			return &cp
 		}
 		t.live += len(more)
+	}
+	if t.move && len(*h)+len(more) > cap(*h) {
+		return t.relocate(h, nil, more)
 	}
 	*h = append(*h, more...)
 	return h
@@ -109,5 +131,5 @@ func (t *lite) Realloc(h *[]byte, size int) *[]byte {
 	return nh
 }
 
-func (t *lite) LiveBytes() int        { return t.live }
+func (t *lite) LiveBytes() int         { return t.live }
 func (t *lite) Use(b []byte, _ string) {}
